@@ -95,6 +95,7 @@ class Part:
         self.worst = {}
         self.counters = {}
         self.skipped = {}
+        self.extra = []  # free-form results returned to the driver (merged in chunk order)
 
     # --- recording -------------------------------------------------------
     def ev(self, n=1):
@@ -161,6 +162,7 @@ class Part:
             self.counters[k] = self.counters.get(k, 0) + v
         for k, v in other.skipped.items():
             self.skipped[k] = self.skipped.get(k, 0) + v
+        self.extra.extend(other.extra)
 
 
 def load_known():
